@@ -76,8 +76,19 @@ func (o *Operations) Update(
 		// Only entries that are in the index can be updated: a record for anything else (i.e. written through a handle
 		// whose entry has been renamed or removed meanwhile) matches no row, so the index would lose track of the end of
 		// the tape and every later operation would fail
-		if _, err := o.metadata.Metadata.GetHeader(context.Background(), file.Path); err != nil {
+		existing, err := o.metadata.Metadata.GetHeader(context.Background(), file.Path)
+		if err != nil {
 			return []*tar.Header{}, err
+		}
+
+		// ... and only by a record of their own kind: a directory that has taken a removed file's place must not be
+		// turned into a file by a handle that is still open on the old entry (its children would be left without a parent)
+		if (existing.Typeflag == tar.TypeDir) != file.Info.IsDir() {
+			if file.Info.IsDir() {
+				return []*tar.Header{}, config.ErrIsFile
+			}
+
+			return []*tar.Header{}, config.ErrIsDirectory
 		}
 
 		hdr.Name = file.Path
